@@ -15,7 +15,7 @@ RULE = ("Cases: (defaults) every sift variant x drawn signals: variant(x, **get_
         "(paths) edit histories of up to 15 operations {set, get, delete} on twin configurations - one addressed through "
         "'a/b/c' paths, the other through nested indexing - over existing, new and missing keys at depth 1-3 with values "
         "{int, float, None, bool, str, list, tuple, numpy array, dict}, plus too-deep paths; (roundtrip) configurations "
-        "edited with 1-6 valid option changes at any depth (including tuples and numpy arrays) saved and re-loaded through "
+        "edited with 1-6 valid option changes at any depth (including tuples and numpy arrays) and up to 2 deleted options saved and re-loaded through "
         "both YAML routes (file, text/stream). Oracle: defaults reproduce the plain call; twin stores deep-equal after "
         "every step, reads equal, both raise KeyError together, too-deep slash paths raise ValueError and change nothing; "
         "loaded config has the same sift_type and a store equal modulo tuple->list / array->list, loaded.get_func()(x) == "
@@ -209,6 +209,11 @@ def rt_case(draw):
     pool = EDITS['all'] + EDITS.get(v, [])
     idx = draw(st.lists(st.integers(0, len(pool) - 1), min_size=1, max_size=6, unique=True))
     edits = [(pool[i][0], draw(st.sampled_from(pool[i][1]))) for i in idx]
+    # deletions: an option removed from the configuration falls back to the function's own default, and must stay removed
+    dels = draw(st.lists(st.sampled_from(['extrema_opts/mag_pad_opts/stat_length', 'imf_opts/energy_thresh', 'verbose',
+                                          'extrema_opts/parabolic_extrema', 'imf_opts/rilling_thresh', 'extrema_opts/loc_pad_opts',
+                                          'sift_thresh']), max_size=2, unique=True))
+    edits = edits + [(d, '__delete__') for d in dels if d not in [e[0] for e in edits]]
     n = draw(st.sampled_from([64, 100, 128]))
     sig = {'family': draw(st.sampled_from(['tones', 'amfm', 'noise'])), 'n': n,
            'k': draw(st.integers(0, 2**32 - 1)), 'p1': draw(st.floats(0, 1)), 'p2': draw(st.floats(0, 1))}
@@ -224,7 +229,15 @@ def oracle_roundtrip(case, rec):
         conf['nensembles'] = 2
     conf['max_imfs'] = 3
     for path, val in case['edits']:
+        if isinstance(val, str) and val == '__delete__':
+            try:
+                del conf[path]
+            except KeyError:
+                pass
+            continue
         conf[path] = copy.deepcopy(val)
+    if any(isinstance(v_, str) and v_ == '__delete__' for _, v_ in case['edits']):
+        rec.cls('with-deleted-options')
     if conf['imf_opts/stop_method'] == 'fixed' and conf['imf_opts/max_iters'] > 20:
         conf['imf_opts/max_iters'] = 4          # 1000 fixed iterations per IMF only burn time
     try:
